@@ -10,6 +10,7 @@ import (
 	"deps.dev/util/resolve"
 	"deps.dev/util/resolve/dep"
 	"verif/harness/core"
+	"verif/harness/univ"
 )
 
 // cgraph is the harness's own plain description of a rooted graph.
@@ -23,6 +24,9 @@ type cedge struct {
 	from, to int
 	req      string
 	dev      bool
+	// valued is "" or one of "x", "y": the type carries Scope=s and KnownAs=<valued> - two valued attributes that
+	// agree on the lower key, so that only a comparison looking at every key tells x from y
+	valued string
 }
 
 func (g cgraph) encode() string {
@@ -44,6 +48,7 @@ func (g cgraph) encode() string {
 		if e.dev {
 			t = "d"
 		}
+		t += e.valued
 		fmt.Fprintf(&sb, "%d>%d:%s:%s", e.from, e.to, e.req, t)
 	}
 	return sb.String()
@@ -78,7 +83,7 @@ func decodeCgraph(s string) (cgraph, bool) {
 			if err1 != nil || err2 != nil || a >= len(g.labels) || b >= len(g.labels) {
 				return cgraph{}, false
 			}
-			g.edges = append(g.edges, cedge{a, b, f[1], f[2] == "d"})
+			g.edges = append(g.edges, cedge{a, b, f[1], strings.HasPrefix(f[2], "d"), strings.TrimLeft(f[2], "rd")})
 		}
 	}
 	return g, true
@@ -117,6 +122,10 @@ func (g cgraph) build(perm []int, edgeOrder []int, errRot int) *resolve.Graph {
 		if e.dev {
 			t = dep.NewType(dep.Dev)
 		}
+		if e.valued != "" {
+			t.AddAttr(dep.Scope, "s")
+			t.AddAttr(dep.KnownAs, e.valued)
+		}
 		rg.AddEdge(resolve.NodeID(perm[e.from]), resolve.NodeID(perm[e.to]), e.req, t)
 	}
 	return rg
@@ -129,7 +138,7 @@ func typeTag(t dep.Type) string {
 	if t.Equal(devType) {
 		return "d"
 	}
-	return t.String()
+	return univ.TypeSig(t)
 }
 
 var devType = dep.NewType(dep.Dev)
@@ -343,7 +352,7 @@ func c13Enumerate(b c13Bounds, f func(g cgraph)) {
 				}
 			}
 			for _, pi := range chosen {
-				g.edges = append(g.edges, cedge{pairs[pi][0], pairs[pi][1], "a", false})
+				g.edges = append(g.edges, cedge{from: pairs[pi][0], to: pairs[pi][1], req: "a"})
 			}
 			c13Decorate(g, b.maxDev, 0, f)
 		}
@@ -369,9 +378,10 @@ func c13Decorate(g cgraph, left, fromSlot int, f func(g cgraph)) {
 		return
 	}
 	ne, nn := len(g.edges), len(g.labels)
-	// slots: for each original edge 5 slots (dev, req b, parallel with other type, parallel with other req,
-	// parallel with both other), for each node 2 slots (1 error, 2 errors)
-	const es = 5
+	// slots: for each original edge 6 slots (dev, req b, parallel with other type, parallel with other req,
+	// parallel with both other, a pair of parallel edges whose types differ only in the value of their second
+	// valued attribute), for each node 2 slots (1 error, 2 errors)
+	const es = 6
 	total := ne*es + nn*2
 	for s := fromSlot; s < total; s++ {
 		h := cgraph{labels: g.labels, errs: append([][]string(nil), g.errs...), edges: append([]cedge(nil), g.edges...)}
@@ -400,6 +410,11 @@ func c13Decorate(g cgraph, left, fromSlot int, f func(g cgraph)) {
 				p := h.edges[e]
 				p.req = other(p.req)
 				p.dev = !p.dev
+				h.edges = append(h.edges, p)
+			case 5:
+				h.edges[e].valued = "x"
+				p := h.edges[e]
+				p.valued = "y"
 				h.edges = append(h.edges, p)
 			}
 		} else {
@@ -473,7 +488,7 @@ func c13Structured(run *core.Run, total int, k int, quick bool) (orbits, calls i
 					// fillers are children of the root; interesting nodes: star = children of root, chain = root -> i1 -> i2 -> i3
 					for p := 1; p < total; p++ {
 						if _, ok := isInt[p]; !ok {
-							g.edges = append(g.edges, cedge{0, p, "a", false})
+							g.edges = append(g.edges, cedge{from: 0, to: p, req: "a"})
 						}
 					}
 					// interesting nodes ordered by their index i (not by position) so that the abstract graph is the same
@@ -483,9 +498,9 @@ func c13Structured(run *core.Run, total int, k int, quick bool) (orbits, calls i
 					}
 					for i, p := range byIdx {
 						if st == "star" || i == 0 {
-							g.edges = append(g.edges, cedge{0, p, "a", false})
+							g.edges = append(g.edges, cedge{from: 0, to: p, req: "a"})
 						} else {
-							g.edges = append(g.edges, cedge{byIdx[i-1], p, "a", false})
+							g.edges = append(g.edges, cedge{from: byIdx[i-1], to: p, req: "a"})
 						}
 					}
 					ident := make([]int, total)
@@ -550,9 +565,9 @@ func C13(tier string) {
 		run.SetBudget(2400e9)
 	}
 	run.Cov["rule"] = "all rooted graphs within the node/edge/decoration bounds over the label alphabet {A,B} (root included), each presented under every renumbering of non-root nodes x edge orders (all permutations if <=4 edges, else as generated/reversed/rotated) x error rotations; oracle: one outcome per orbit (same canonical graph or failure for all), idempotence, root, node and edge multisets preserved; plus structured 13-16 node family (placements of <=3 duplicate nodes among distinct fillers) exercising sort.Sort's large-slice path. Non-trivial = graph has a duplicate version, a parallel edge, a self loop or a node error."
-	bounds := []c13Bounds{{2, 3, 2, false, false}, {3, 3, 1, false, false}, {4, 3, 0, false, false}, {5, 5, 0, true, true}}
+	bounds := []c13Bounds{{1, 1, 3, false, false}, {2, 3, 2, false, false}, {3, 3, 1, false, false}, {4, 3, 0, false, false}, {5, 5, 0, true, true}}
 	if !quick {
-		bounds = []c13Bounds{{2, 4, 3, false, false}, {3, 5, 2, false, false}, {4, 4, 2, false, false}, {5, 3, 1, false, false}, {5, 6, 0, true, false}, {5, 5, 1, true, true}}
+		bounds = []c13Bounds{{1, 1, 4, false, false}, {2, 4, 3, false, false}, {3, 5, 2, false, false}, {4, 4, 2, false, false}, {5, 3, 1, false, false}, {5, 6, 0, true, false}, {5, 5, 1, true, true}}
 	}
 	var graphs, calls, nontrivial int64
 	per := []any{}
